@@ -81,7 +81,7 @@ _spec_hash = None
 
 
 # bump when the logic of a stage in check.py / stages_ext.py changes what a stage produces
-STAGE_VERSION = "14"
+STAGE_VERSION = "19"
 
 
 def spec_hash():
@@ -509,10 +509,13 @@ def drive_plan(tier, seed):
                 ("wide", "identity", "owned", 2000), ("churn", "const", "owned", 2000),
                 ("churn", "sip", "borrowed", 2000), ("large", "default", "owned", 1200),
                 ("fifo", "identity", "owned", 2500, 28), ("fifo", "const", "borrowed", 1500, 20),
-                ("fifo", "default", "owned", 1500, 14), ("fifo", "identity", "borrowed", 2000, 29, "uniform")]
+                ("fifo", "default", "owned", 1500, 14), ("fifo", "identity", "borrowed", 2000, 29, "uniform"),
+                ("medium", "default", "owned", 2000, 0, "cloneshift"),
+                ("wide", "const", "borrowed", 1500, 0, "cloneshift")]
     else:
         base = []
         for i, h in enumerate(["const", "onebit", "identity", "sip", "default", "siprand"]):
+            base.append(("medium", h, "owned" if i % 2 else "borrowed", 4000, 0, "cloneshift"))
             for j, prof in enumerate(["small", "medium", "wide", "churn", "large", "fifo"]):
                 steps = {"small": 6000, "medium": 6000, "wide": 4000, "churn": 4000, "large": 2500,
                          "fifo": 2000 if h == "const" else 6000}[prof]
@@ -523,7 +526,8 @@ def drive_plan(tier, seed):
              "seed": seed * 1000 + n + 1, "crash_rate": 0.0, "forget_rate": 0.0}
         if len(job) > 4:
             j["fit"] = job[4]
-            j["uniform"] = len(job) > 5
+            j["uniform"] = len(job) > 5 and job[5] == "uniform"
+            j["cloneshift"] = len(job) > 5 and job[5] == "cloneshift"
         elif prof == "fifo":
             j["fit"] = [28, 20, 14][n % 3]
         plan.append(j)
@@ -663,6 +667,8 @@ def stage_drive(tier, name="drive", plan=None):
                     cmd += ["--fit", str(job["fit"])]
                 if job.get("uniform"):
                     cmd += ["--uniform"]
+                if job.get("cloneshift"):
+                    cmd += ["--cloneshift"]
                 p = subprocess.run(cmd, stdout=subprocess.PIPE, stderr=subprocess.PIPE, text=True, timeout=1800,
                                    preexec_fn=limits())
                 res = {"job": job, "trace": trace, "script": script, "driver_rc": p.returncode}
@@ -721,7 +727,20 @@ def big_crash_segments(path, tier):
             {"prefix": fill(224), "op": opl("insert", k=900, vs=2), "sweep": ["hash"]},
             {"prefix": fill(150), "op": opl("shrink_to", n=10), "sweep": ["hash"]},
         ]
+    # continued use of an entry whose closure panicked after changing the value: the recorded
+    # size lags behind the value (C16 allows that), and the NEXT mutate of the same key must
+    # still keep the accounting sane (shrink below, grow beyond, overflow the limit)
+    after = []
+    for big in (30, 300, 2000):
+        for later in (0, 5, 400, 3000):
+            after.append({"prefix": [opl("new", n=1000, kh=0), opl("insert", k=1, vs=4), opl("insert", k=2, vs=1)],
+                          "op": opl("mutate", k=1, vs=big), "sweep": ["closure_after", "size"],
+                          "ns": [1, 2, 3, 4],
+                          "suffix": [opl("len"), opl("mutate", k=1, vs=later), opl("len"), opl("insert", k=3, vs=1),
+                                     opl("len"), opl("remove", k=1), opl("current_size"), opl("clear")]})
     with open(path, "w") as fh:
+        for s in after:
+            fh.write(json.dumps(s, separators=(",", ":")) + "\n")
         for s in segs:
             s["suffix"] = suffix
             s["quiet_prefix"] = True
@@ -1204,13 +1223,14 @@ def collect_core(prop, tier, fnd, cov):
         import stages_ext
         stages_ext.clone_crash_into(prop, tier, fnd, cov, sys.modules[__name__])
         roguard_into(prop, stage_roguard(tier, dump), fnd, cov)
-    if prop in ("C01", "C02", "C05", "C13"):
+    if prop in ("C01", "C02", "C05", "C11", "C13"):
         # the bound / the sum of recorded sizes / the order of what remains / the atomicity of a
         # failing try_reserve must also hold around a caught panic or a refused allocation
         import stages_ext
         seg = stage_segments(tier, dump["crash"]["file"], "segments-crash", universe="3")
         stages_ext.segments_into(prop, seg, fnd, cov, sys.modules[__name__], "crash")
         stages_ext.clone_crash_into(prop, tier, fnd, cov, sys.modules[__name__])
+        stages_ext.segments_into(prop, stage_bigcrash(tier), fnd, cov, sys.modules[__name__], "crash")
         seed = int(os.environ.get("VERIF_SEED", "0"))
         drvc = stage_drive(tier, name="drive-crash", plan=stages_ext.crash_plan(tier, seed))
         collect_drive(prop, drvc, fnd, cov, crash_owner="C16")
